@@ -111,7 +111,7 @@ class StmtMixin:
             if isinstance(ty, TDict):
                 return sym.dict_empty(ty)
             if isinstance(ty, TSet):
-                return V(ty, z3.K(sym.sort_of(ty.k), z3.BoolVal(False)))
+                return sym.set_empty(ty)
             raise Unsupported("empty literal for %s" % ty)
         return sym.coerce(val, ty)
 
@@ -372,7 +372,20 @@ class StmtMixin:
                 self.assign(st.target, i, env)
             else:
                 seq = self.evalv(it_expr, env)
-                item = self.index_of(seq, i)
+                if isinstance(seq.ty, TList) and not z3.is_int_value(z3.simplify(i.t)) and self.ctx.prove_quick(i.t >= 0, 200):
+                    # the loop index is known to be non-negative (loop invariant): Python's negative-index normalisation
+                    # is the identity, so the element is the plain array cell (a usable quantifier trigger); the loop
+                    # condition i < len(seq) has just been taken, so there is no IndexError
+                    item = V(seq.ty.elem, z3.Select(sym.list_arr(seq), i.t))
+                    for f in sym.wf(item):
+                        self.ctx.assume(f)
+                    if isinstance(seq.ty.elem, TRef):
+                        self.ref_wf(item.t)
+                elif seq.ty == TBytes and not z3.is_int_value(z3.simplify(i.t)) and self.ctx.prove_quick(i.t >= 0, 200):
+                    item = V(TInt, z3.Select(sym.bytes_data(seq), i.t))  # same, for iteration over bytes
+                    self.ctx.assume(z3.And(0 <= item.t, item.t <= 255))
+                else:
+                    item = self.index_of(seq, i)
                 if mode == "enum":
                     self.assign(st.target, sym.tuple_mk([i, item]), env)
                 else:
@@ -466,6 +479,8 @@ class StmtMixin:
                         raise Unsupported("loop %d of %s: local %s changes type in the body (%s -> %s); declare its type in the contract's locals=" % (ordn, fname, n, v0.ty, v1.ty))
                     if v1 is v0 or n in havocked_names or not isinstance(v0, V) or not isinstance(v1, V):
                         continue
+                    if isinstance(v0.ty, TOpt) and v0.ty.inner == v1.ty and sym.opt_val(v0).t.eq(v1.t):
+                        continue  # Optional narrowing (`if x is not None:`) rebinds the name to the same value
                     if not v0.t.eq(v1.t):
                         raise Unsupported("loop %d of %s: the body changes local %s, which the loop head does not havoc (add it to the loop's modifies)" % (ordn, fname, n))
                 if head_dict is not None:
@@ -500,7 +515,9 @@ class StmtMixin:
             except (Unsupported, PyRaise):
                 continue
             b = base
+            absent = None
             if isinstance(b.ty, TOpt):
+                absent = sym.opt_is_none(b)  # a None base denotes no object: nothing can have been written through it
                 b = sym.opt_val(b)
             if not isinstance(b.ty, TRef):
                 continue
@@ -514,6 +531,8 @@ class StmtMixin:
             for fm in sym.wf(nv):
                 self.ctx.assume(fm)
             self.field_touched(owner, f, b.t)
+            if absent is not None:
+                nv = V(ty, z3.If(absent, self.heap.read(owner, f, ty, b.t).t, nv.t))
             self.heap.write(owner, f, ty, b.t, nv.t)
         for extra in spec.get("modifies", []):
             if extra == "<opaque>":
@@ -545,7 +564,9 @@ class StmtMixin:
                 base = self.evalv(node.value, env)
             finally:
                 self.spec -= 1
+            absent = None
             if isinstance(base.ty, TOpt):
+                absent = sym.opt_is_none(base)  # modifies through a None base: no object, nothing to havoc
                 base = sym.opt_val(base)
             from .model import _mangle
 
@@ -557,6 +578,8 @@ class StmtMixin:
             for fm in sym.wf(nv):
                 self.ctx.assume(fm)
             self.field_touched(owner, f, base.t)
+            if absent is not None:
+                nv = V(ty, z3.If(absent, self.heap.read(owner, f, ty, base.t).t, nv.t))
             self.heap.write(owner, f, ty, base.t, nv.t)
             return
         raise Unsupported("modifies location %s" % loc)
